@@ -19,9 +19,13 @@ def gen_tdm(rng, templates=False):
     pnames = ["p%d" % k for k in rng.sample(range(0, 12), npar)]
     lines = []
     info = {"parrays": {}, "scalars": {}, "arrays": {}, "uses": []}
+    long_one = rng.random() < 0.02          # once in a while a p-array beyond NumPy's print threshold
     for pn in pnames:
         ty = rng.choice(["float", "float", "int", "complex"])
         n = rng.randrange(1, 6)
+        if long_one and ty != "complex":
+            n = rng.randrange(1001, 1500)
+            long_one = False
         if ty == "int":
             vals = [rng.randrange(-5, 9) for _ in range(n)]
             txt = ", ".join(str(v) for v in vals)
@@ -53,9 +57,18 @@ def gen_tdm(rng, templates=False):
     if rng.random() < 0.4:
         lines.append("float array B =\n    0.5, 1.5\n    2.5, 3.5\n")
         info["arrays"]["B"] = [0.5, 1.5, 2.5, 3.5]
+    # (templates) a p-array declared wholesale by one shaped parameter: still passed by name
+    info["symbolic_parrays"] = {}
+    if templates and rng.random() < 0.35:
+        pn = "p%d" % rng.randrange(20, 30)
+        w = rng.randrange(1, 4)
+        lines.append("float array %s[1, %d] =\n    {rs}\n" % (pn, w))
+        info["symbolic_parrays"][pn] = w
+        pnames = pnames + [pn]
     rng.shuffle(lines)
     ops = []
     params = []
+    declared = [k for k in ("x", "n", "z", "s", "flag", "B") if k in info["scalars"] or k in info["arrays"]]
     for _ in range(rng.randrange(1, 7)):
         gate = rng.choice(["Sgate", "BSgate", "Rgate", "MeasureHomodyne", "G"])
         pos, kw = [], []
@@ -71,8 +84,13 @@ def gen_tdm(rng, templates=False):
                 q = rng.choice(["a", "al", "phi"])
                 params.append(q)
                 pos.append("2*{%s}" % q)
+            elif declared and r < 0.9:
+                # a STRING that happens to be the name of a declared (non-p) variable stays a string
+                pos.append('"%s"' % rng.choice(declared))
             else:
                 pos.append(rng.choice(["0.5", "1", "0.0", "2.5"]))
+        if declared and rng.random() < 0.15:
+            kw.append('label="%s"' % rng.choice(declared))
         if rng.random() < 0.4:
             if pnames and rng.random() < 0.6:
                 pn = rng.choice(pnames)
@@ -89,6 +107,11 @@ def gen_tdm(rng, templates=False):
         info["uses"].append(("loop", pnames[0]))
     opts = rng.choice(["", " (temporal_modes=3)", " (temporal_modes=2, copies=1)"])
     text = "name t\nversion 1.0\n" + rng.choice(["", "target TD2 (shots=10)\n"]) + "type tdm%s\n\n" % opts + "".join(lines) + "\n" + "\n".join(ops) + "\n"
+    for pn, w in info["symbolic_parrays"].items():
+        if any(u[1] == pn for u in info["uses"]):
+            params += ["rs_0_%d" % j for j in range(w)]
+        else:
+            params += ["rs_0_%d" % j for j in range(w)]
     info["params"] = sorted(set(params))
     info["pnames"] = pnames
     return text, info
@@ -115,7 +138,7 @@ def check_tdm(text, info, roundtrip=True):
     seen_names = []
     for o in obj.operations:
         for a in list(o.get("args", [])) + list(o.get("kwargs", {}).values()):
-            if isinstance(a, str) and a in info["parrays"]:
+            if isinstance(a, str) and (a in info["parrays"] or a in info.get("symbolic_parrays", {})):
                 seen_names.append(a)
             if isinstance(a, np.ndarray):
                 # an array delivered by value must not be a p-array
@@ -169,8 +192,8 @@ def jinfo(info):
 
 
 def run(ctx):
-    ctx.rule = ("random tdm scripts with 0-4 p-arrays (int/float/complex, length 1-5) used positionally, by keyword "
-                "and in loop bodies, next to ordinary scalars of every type, an ordinary array, and (every third "
+    ctx.rule = ("random tdm scripts with 0-4 p-arrays (int/float/complex, length 1-5, occasionally 1001-1500; in templates also a p-array declared wholesale by one shaped parameter) used positionally, by keyword "
+                "and in loop bodies, next to ordinary scalars of every type, an ordinary array, string arguments that spell the name of a declared variable, and (every third "
                 "script) template parameters; oracle: p-arrays delivered by name and available in the variables with "
                 "declared data and dtype, p-names never among the free parameters, is_template iff braces are "
                 "written, then loads(dumps(p)) preserves operations, references and variables exactly; model LOADS "
@@ -189,7 +212,11 @@ def run(ctx):
         texts.append(text)
         # parameters occur in operation arguments only; a tdm template whose *variables* hold
         # parameters cannot be serialised (open finding C15-tdm-parametrised-variable)
-        rt = True
+        rt = not info["symbolic_parrays"]
+        if info["symbolic_parrays"]:
+            ctx.count("whole-array-parameter p-array (no round trip: open finding)")
+        if any(len(v[1]) > 1000 for v in info["parrays"].values()):
+            ctx.count("p-array longer than 1000")
         msg = check_tdm(text, info, roundtrip=rt)
         if msg:
             ctx.violation("tdm: " + msg, {"kind": "tdm", "text": text, "info": jinfo(info), "roundtrip": rt})
